@@ -1,16 +1,156 @@
 /-
-  PCV.Model.DrvIPA — driver requests of the IPA scheme model (op names start with "ipa.").
+  PCV.Model.DrvIPA — driver requests `ipa.*` of the inner-product-argument model.
+  Every request carries the universal parameters (`key`, `h`, `s`) and the requested degree
+  (`supported`); the driver runs the model's `trim` first, so `trim` is exercised by every case.
+  A request may override the trimmed key length with `keylen=n` (hand-made keys: D7 witnesses).
 -/
 import PCV.Model.Wire
 import PCV.Model.DrvUtil
+import PCV.Model.IPA
 namespace PCV
 namespace DrvIPA
+open Driver IPA
 
-/-- `none` = not an op of this module -/
-def handle (p : Nat) (r : Req) : Option (Except String String) :=
-  let _ := p
-  let _ := r
-  none
+variable {p : Nat}
+
+def asLabel (v : Val) : R Label := asNats v
+def asLabels (v : Val) : R (List Label) := do let xs ← asList v; xs.mapM asLabel
+def asOptNats (v : Val) : R (List (Option Nat)) := do let xs ← asList v; xs.mapM asOptNat
+def asOptFes (v : Val) : R (List (Option (Fp p))) := do let xs ← asList v; xs.mapM asOptFe
+
+def getTrim (r : Req) : R (Except Err (CK (Fp p) × VK (Fp p))) := do
+  let pp : UParams (Fp p) := ⟨← asFes (← need r "key"), ← asFe (← need r "h"), ← asFe (← need r "s")⟩
+  let supported ← asNat (← need r "supported")
+  pure (trim pp supported)
+
+def getPolys (r : Req) : R (List (LPoly (Fp p))) := do
+  let labels ← asLabels (← need r "labels")
+  let polys ← asFess (← need r "polys")
+  let bounds ← asOptNats (← need r "bounds")
+  let hbs ← asOptNats (← need r "hbs")
+  pure <| (labels.zip (polys.zip (bounds.zip hbs))).map fun (l, (q, (b, h))) => ⟨l, q, b, h⟩
+
+def getRands (r : Req) : R (List (Rand (Fp p))) := do
+  let rs ← asFes (← need r "rands")
+  let ss ← asOptFes (← need r "srands")
+  pure <| (rs.zip ss).map fun (a, b) => ⟨a, b⟩
+
+def getComms (r : Req) : R (List (LComm (Fp p))) := do
+  let labels ← asLabels (← need r "clabels")
+  let cs ← asFes (← need r "cs")
+  let ss ← asOptFes (← need r "ss")
+  let bounds ← asOptNats (← need r "cbounds")
+  pure <| (labels.zip (cs.zip (ss.zip bounds))).map fun (l, (c, (s, b))) => ⟨l, ⟨c, s⟩, b⟩
+
+def getProofs (r : Req) : R (List (Proof (Fp p))) := do
+  let ls ← asFess (← need r "lss")
+  let rs ← asFess (← need r "rss")
+  let ks ← asFes (← need r "fcks")
+  let cs ← asFes (← need r "pcs")
+  let hcs ← asOptFes (← need r "hcs")
+  let rands ← asOptFes (← need r "prands")
+  pure <| (ls.zip (rs.zip (ks.zip (cs.zip (hcs.zip rands))))).map
+    fun (l, (r, (k, (c, (hc, rd))))) => ⟨l, r, k, c, hc, rd⟩
+
+def getProof (r : Req) : R (Proof (Fp p)) := do
+  pure ⟨← asFes (← need r "ls"), ← asFes (← need r "rs"), ← asFe (← need r "fck"),
+        ← asFe (← need r "pc"), ← asOptFe (← need r "hc"), ← asOptFe (← need r "prand")⟩
+
+def getQueries (r : Req) : R (List (Query (Fp p))) := do
+  let ql ← asLabels (← need r "qlabels")
+  let pl ← asLabels (← need r "qplabels")
+  let pts ← asFes (← need r "qpoints")
+  pure <| (ql.zip (pl.zip pts))
+
+def getEvals (r : Req) : R (List ((Label × Fp p) × Fp p)) := do
+  let el ← asLabels (← need r "elabels")
+  let pts ← asFes (← need r "epoints")
+  let vs ← asFes (← need r "evals")
+  pure <| (el.zip (pts.zip vs)).map fun (l, (z, v)) => ((l, z), v)
+
+def vProof (π : Proof (Fp p)) : List (String × Val) :=
+  [("ls", vFes π.lVec), ("rs", vFes π.rVec), ("fck", vFe π.finalCommKey), ("pc", vFe π.c),
+   ("hc", vOptFe π.hidingComm), ("hcl", .l [vOptFe π.hidingComm]), ("prand", vOptFe π.rand),
+   ("nl", .n π.lVec.length), ("nr", .n π.rVec.length)]
+
+def vProofs (πs : List (Proof (Fp p))) : List (String × Val) :=
+  [("lss", .l (πs.map fun π => vFes π.lVec)), ("rss", .l (πs.map fun π => vFes π.rVec)),
+   ("fcks", vFes (πs.map (·.finalCommKey))), ("pcs", vFes (πs.map (·.c))),
+   ("hcs", .l (πs.map fun π => vOptFe π.hidingComm)), ("prands", .l (πs.map fun π => vOptFe π.rand)),
+   ("nls", vNats (πs.map (·.lVec.length)))]
+
+/-- a hand-made key: the first `n` elements of the trimmed key (or of the parameters) -/
+def overrideKey (r : Req) (ck : CK (Fp p)) : R (CK (Fp p)) := do
+  match r.get? "keylen" with
+  | none => pure ck
+  | some v =>
+    let n ← asNat v
+    let full ← asFes (p := p) (← need r "key")
+    pure { ck with commKey := full.take n }
+
+def handle (p : Nat) (r : Req) : Option (R String) :=
+  if !r.op.startsWith "ipa." then none else some do
+  let t ← getTrim (p := p) r
+  match t with
+  | .error e => pure (errReply e)
+  | .ok (ck0, vk0) =>
+  let ck ← overrideKey r ck0
+  let vk ← overrideKey r vk0
+  match r.op with
+  | "ipa.trim" =>
+    pure <| okReply [("key", vFes ck.commKey), ("h", vFe ck.h), ("s", vFe ck.s),
+      ("max_degree", .n ck.maxDegree), ("supported", .n (supportedDegree ck)),
+      ("vkey", vFes vk.commKey), ("vh", vFe vk.h), ("vs", vFe vk.s)]
+  | "ipa.commit" =>
+    let polys ← getPolys (p := p) r
+    let rng ← asBool (← need r "rng")
+    let draws ← asFes (← need r "draws")
+    pure <| exceptReply (commit ck polys rng draws) fun (cs, rs, rest) =>
+      [("cs", vFes (cs.map (·.comm.comm))), ("ss", .l (cs.map fun c => vOptFe c.comm.shifted)),
+       ("rands", vFes (rs.map (·.rand))), ("srands", .l (rs.map fun x => vOptFe x.shifted)),
+       ("used", .n (draws.length - rest.length))]
+  | "ipa.open" =>
+    let polys ← getPolys (p := p) r
+    let comms ← getComms (p := p) r
+    let rands ← getRands (p := p) r
+    let z ← asFe (← need r "z")
+    let ξs ← asFes (← need r "xis")
+    let ros ← asFes (← need r "ros")
+    let rng ← asBool (← need r "rng")
+    let draws ← asFes (← need r "draws")
+    pure <| exceptReply (IPA.open ck polys comms z rands ξs ros rng draws) fun (π, a, b, c) =>
+      vProof π ++ [("used_xi", .n (ξs.length - a.length)), ("used_ro", .n (ros.length - b.length)),
+                   ("used_draws", .n (draws.length - c.length))]
+  | "ipa.check" =>
+    let comms ← getComms (p := p) r
+    let z ← asFe (← need r "z")
+    let vs ← asFes (← need r "vs")
+    let π ← getProof (p := p) r
+    let ξs ← asFes (← need r "xis")
+    let ros ← asFes (← need r "ros")
+    pure <| exceptReply (check vk comms z vs π ξs ros) fun b => [("b", vBool b)]
+  | "ipa.batch_open" =>
+    let polys ← getPolys (p := p) r
+    let comms ← getComms (p := p) r
+    let rands ← getRands (p := p) r
+    let qs ← getQueries (p := p) r
+    let ξs ← asFes (← need r "xis")
+    let ros ← asFes (← need r "ros")
+    let rng ← asBool (← need r "rng")
+    let draws ← asFes (← need r "draws")
+    pure <| exceptReply (batchOpen ck polys comms rands qs ξs ros rng draws) fun (πs, a, b, c) =>
+      vProofs πs ++ [("used_xi", .n (ξs.length - a.length)), ("used_ro", .n (ros.length - b.length)),
+                     ("used_draws", .n (draws.length - c.length))]
+  | "ipa.batch_check" =>
+    let comms ← getComms (p := p) r
+    let qs ← getQueries (p := p) r
+    let evals ← getEvals (p := p) r
+    let πs ← getProofs (p := p) r
+    let ξs ← asFes (← need r "xis")
+    let ros ← asFes (← need r "ros")
+    let rs ← asFes (← need r "rs")
+    pure <| exceptReply (batchCheck vk comms qs evals πs ξs ros rs) fun b => [("b", vBool b)]
+  | _ => .error "unknown-op"
 
 end DrvIPA
 end PCV
